@@ -1,8 +1,4 @@
-//! C10 family: history tree model (`spec`), shared runtime pieces (`support`) and the generated
-//! modules (`family`, written by build.rs, expanded by the real savefile macros).
+//! C10: the history-tree model (`spec`) and the runtime pieces shared by the generated shard
+//! crates (`support`). The generated modules live in the crates `../sh10/sNN`.
 pub mod spec;
 pub mod support;
-#[allow(clippy::all)]
-pub mod family {
-    include!(concat!(env!("OUT_DIR"), "/family.rs"));
-}
